@@ -16,8 +16,8 @@ func init() {
 			for op := int64(0); op < 17; op++ {
 				for abs := int64(0); abs <= 1; abs++ {
 					for n := int64(0); n <= maxN; n++ {
-						if n == 4 && (abs == 0 || !(op == 0 || op == 2 || op == 4 || op == 6 || op == 7 || op == 9 || op == 13 || op == 15)) {
-							continue // 4 symbolic bytes: absolute paths ("/" + 4 bytes) of Stat, ReadDir, Mkdir, WriteFile, Remove, RenameTo, OpenFile, Glob
+						if n == 4 && (abs == 0 || op == 15) {
+							continue // 4 symbolic bytes: absolute paths ("/" + 4 bytes); Glob with a 4-byte symbolic pattern does not finish (no verdict after 5 min on 8 workers)
 						}
 						cs = append(cs, mkCase("", "c10", "HCall", cfg, op, abs, n))
 					}
@@ -41,7 +41,7 @@ func init() {
 		Reach:       []string{"call", "names", "after-chdir", "spelling"},
 		Explanation: "Bounded symbolic execution of BasePathFS (ToBasePath, FromBasePath, FromPathError, FromLinkError and the per-method forwarding) over a MemFS base with base directory B=/w/a: one of 17 operations with a path of n fully symbolic bytes (all values but NUL; absolute and relative variants, so '.', '..', repeated separators and B's own prefix are covered) is applied through the wrapper and, in lock-step, to a standalone MemFS whose root holds B's content. Asserted for every value: no panic; the observable state of everything outside B in the base is unchanged (confinement); errno, result and resulting tree equal the standalone file system's; no path returned or embedded in an error starts with B.",
 		Bounds: func(tier string) map[string]any {
-			return map[string]any{"symbolic_path_bytes": map[string]string{"quick": "3", "thorough": "4 for absolute paths of single Stat, ReadDir, Mkdir, WriteFile, Remove, RenameTo, OpenFile, Glob calls, 3 otherwise"}[tier], "calls_per_history": "1, and Chdir followed by 1 call with a relative symbolic path", "outside": "longer paths and histories, symbolic links in the base, OrefaFS as base"}
+			return map[string]any{"symbolic_path_bytes": map[string]string{"quick": "3", "thorough": "4 for absolute paths of single calls except Glob (no verdict within 5 min), 3 otherwise"}[tier], "calls_per_history": "1, and Chdir followed by 1 call with a relative symbolic path", "outside": "longer paths and histories, symbolic links in the base, OrefaFS as base"}
 		},
 	})
 }
